@@ -1,6 +1,7 @@
 package main
 
 import (
+	"go/token"
 	"fmt"
 	"go/constant"
 	"go/types"
@@ -185,17 +186,47 @@ func (v *Verifier) callCallbackParam(st *State, in ssa.Instruction, cb *Callback
 		}
 	}
 	se := v.specEnv(st, vars)
+	// witnesses for existential guarantees: locals at the call, "curindex" = index of the innermost
+	// range loop's current element
+	locals := map[string]Value{}
+	v.localVarsAll(st, in.Block(), locals)
+	for _, b := range v.fn.Blocks {
+		if !(b == in.Block() || b.Dominates(in.Block())) {
+			continue
+		}
+		for _, ins := range b.Instrs {
+			if bo, ok := ins.(*ssa.BinOp); ok && bo.Op == token.ADD {
+				if ph, ok := bo.X.(*ssa.Phi); ok && ph.Comment == "rangeindex" {
+					if val, ok := st.regs[bo]; ok {
+						locals["curindex"] = val // later (more deeply nested) loops overwrite earlier ones
+					}
+				}
+			}
+		}
+	}
 	for i, g := range cb.Guarantees {
+		se.witness = nil
+		if len(g.Witness) > 0 {
+			se.witness = map[string]Value{}
+			for qv, local := range g.Witness {
+				if lv, ok := locals[local]; ok {
+					se.witness[qv] = lv
+				}
+			}
+		}
 		v.emit(st, "callback.guarantee", fmt.Sprintf("%s.%d@%s", name, i+1, v.siteLabel(in)), se.evalBool(g.E), g.Props, "guaranteed to the callback: "+g.Text, in)
 	}
-	pre := v.specEnv(st, vars).inState(v.entry)
-	keep := map[string]bool{}
-	tmp := &Contract{Modifies: cb.Preserves, Pkg: v.contract.Pkg}
-	sets, _, _ := v.modSets(tmp, pre)
-	for n := range sets {
-		keep[n] = true
+	se.witness = nil
+	// own writes so far must respect the modifies clause; the callback's effects are charged to
+	// the closure at the caller's call site, so the frame is measured afresh afterwards
+	for _, f := range v.frameFormulas(st, true) {
+		v.emit(st, "frame.precb", mangle(f.name)+"@"+v.siteLabel(in), f.formula, nil, "writes to "+f.name+" before the callback stay inside the modifies clause (or fresh objects)", in)
 	}
+	keep := v.callbackKeep(st, cb)
+	uw := st.unknownWrites
 	v.havocAllExcept(st, keep)
+	st.unknownWrites = uw
+	v.frameCheckpoint(st)
 	if retT == nil {
 		return Value{}
 	}
